@@ -439,8 +439,9 @@ def run(ctx: lib.Ctx) -> None:
                'Fixpoint operands (l : list (frlit + bval)) : result (list bval) := match l with nil => Ok nil | x :: r => '
                'match operand x, operands r with Ok v, Ok vs => Ok (v :: vs) | _, _ => Reject end end.\n'
                'Definition runc (c : bop * list (frlit + bval)) : result bval := match operands (snd c) with Ok st => texec tab1 tab2 (fst c) st | Reject => Reject end.\n')
-    bad = ctx.coq_mismatches('bls', IMPORTS, 'runc', 'bres_eqb', 'bop * list (frlit + bval)', 'result bval', coq_cases, shard=200, prelude=prelude)
-    lbad = ctx.coq_mismatches('lenient', IMPORTS, 'runc', 'bres_eqb', 'bop * list (frlit + bval)', 'result bval', lenient_cases, prelude=prelude)
+    allbad = ctx.coq_mismatches('bls', IMPORTS, 'runc', 'bres_eqb', 'bop * list (frlit + bval)', 'result bval', coq_cases + lenient_cases, shard=200, prelude=prelude)
+    bad = [i for i in allbad if i < len(coq_cases)]
+    lbad = [i for i in allbad if i >= len(coq_cases)]
     ctx.extra['lenient_acceptances'] = {'cases': len(lenient_cases), 'differ_from_model': len(lbad),
                                         'note': 'INT on g1/g2 values: outside the reference typing, not part of the verdict'}
     # Fr codec: to_bytes(32, little) of every Fr result, evaluated by the model
